@@ -143,7 +143,13 @@ fn judge_type_info(w: u32, loc: &mut Local, count_state: bool) {
     if count_state {
         loc.state(w as u64, expect.is_some());
     }
-    let got = TypeInfo::try_from(w);
+    let got = match catch(|| TypeInfo::try_from(w)) {
+        Ok(g) => g,
+        Err(p) => {
+            loc.violation("TypeInfo::try_from panics", format!("TypeInfo::try_from({:#010x}) panicked: {}", w, p), json!({"word": w}));
+            return;
+        }
+    };
     match (got, expect) {
         (Err(_), None) => {
             if w & 0x3FF == 0x3FF {
@@ -163,8 +169,13 @@ fn judge_type_info(w: u32, loc: &mut Local, count_state: bool) {
                 return;
             }
             loc.transitions += 2;
-            let be = ti.as_bytes::<BigEndian>();
-            let le = ti.as_bytes::<LittleEndian>();
+            let (be, le) = match catch(|| (ti.as_bytes::<BigEndian>(), ti.as_bytes::<LittleEndian>())) {
+                Ok(x) => x,
+                Err(p) => {
+                    loc.violation("TypeInfo::as_bytes panics", format!("re-encoding the description of {:#010x} panicked: {}", w, p), json!({"word": w}));
+                    return;
+                }
+            };
             let re = u32::from_be_bytes([be[0], be[1], be[2], be[3]]);
             let rev: Vec<u8> = le.iter().rev().cloned().collect();
             if rev != be {
@@ -172,7 +183,7 @@ fn judge_type_info(w: u32, loc: &mut Local, count_state: bool) {
             } else if (re ^ w) & !unused_mask(kind) != 0 {
                 loc.violation("re-encoded type info differs in used bits", format!("TypeInfo::try_from({:#010x}) re-encodes as {:#010x}: differs in bits {:#010x} which are not unused for {:?}", w, re, (re ^ w) & !unused_mask(kind), kind), json!({"word": w}));
             } else {
-                match TypeInfo::try_from(re) {
+                match catch(|| TypeInfo::try_from(re)).unwrap_or_else(|p| Err(dlt_core::dlt::Error::InvalidData(format!("PANIC {}", p)))) {
                     Ok(ti2) if ti2 == ti => {
                         if w & 0x3FF == 0x3FF || w < 0x800 {
                             loc.outcome_n("accepted, stable", 1);
@@ -196,7 +207,7 @@ pub fn run(ctx: &Ctx) {
         let n: u64 = 1 << 13;
         ctx.run_family(Family::new("c14.type_info.history", n * n, "ALL ordered pairs (x, y) over the 8192 patterns of bits 0..12 (TYLE, every kind flag, VARI, FIXP): TypeInfo::try_from(x), then y judged twice on the same thread", move |i, loc| {
             let (x, y) = ((i / n) as u32, (i % n) as u32);
-            let _ = TypeInfo::try_from(x);
+            let _ = catch(|| TypeInfo::try_from(x));
             judge_type_info(y, loc, false);
             judge_type_info(y, loc, false);
         }).distinct());
